@@ -57,8 +57,8 @@ PatSet(p) ==
     [] OTHER             -> StrU
 
 FmtSet(f) ==
-  CASE f = "date"      -> {"2020-01-02"}
-    [] f = "date-time" -> {}
+  CASE f = "date"      -> {"2020-01-02", "0001-01-01"}
+    [] f = "date-time" -> {"2020-01-02T03:04:05Z", "0001-01-01T00:00:00Z"}
     [] f = "uuid"      -> {}
     [] f = "email"     -> {}
     [] f = "hostname"  -> {"a", "ab", "abc", "abcd", "b", "ba", "7"} \ {"7"} \* measured, see calibration
